@@ -26,7 +26,7 @@ impl Titles {
 }
 impl Default for Titles {
     #[verifier::external_body]
-    fn default() -> (r: Self) ensures r.names().len() == 0 { unimplemented!() }
+    fn default() -> (r: Self) ensures r.names().len() == 0, r.names() == Seq::<String>::empty() { unimplemented!() }
 }
 
 //@@ item src/processor.rs :: enum ProcessDesision
@@ -71,6 +71,10 @@ pub trait Process {
     spec fn must_break(&self) -> bool;
     // terminal printers: process(c) appends fut([c]) at once, complete() appends nothing
     spec fn eager(&self) -> bool;
+    // start(titles) FAILS: the configuration is invalid for these selection names (csv / headers without selections ...)
+    spec fn rejects(&self, titles: Seq<String>) -> bool;
+    // what start(titles) writes when it succeeds (the header row of csv / text --headers; nothing otherwise)
+    spec fn header(&self, titles: Seq<String>) -> Seq<char>;
 
 //@@ fn process.start = src/processor.rs :: trait Process :: fn start
 //@@ ret r
@@ -80,6 +84,10 @@ pub trait Process {
             is_prefix(old(self).log(), final(self).log()), // @tobl start.log
             old(self).eager() ==> final(self).eager(), // @tobl start.eager
             r is Ok ==> final(self).must_break() == old(self).must_break(), // @tobl start.break
+            // an invalid configuration is reported by start itself, through every stage, with nothing written (C18);
+            // a valid one writes exactly the header of the selection names that reach the printer, in order (C15)
+            old(self).rejects(titles_so_far.names()) ==> r is Err && final(self).log() == old(self).log(), // @tobl start.rejects
+            r is Ok ==> final(self).log() == old(self).log().add(old(self).header(titles_so_far.names())), // @tobl start.header
 //@@ endfn
 
 //@@ fn process.process = src/processor.rs :: trait Process :: fn process
